@@ -20,13 +20,105 @@ thread_local! {
   pub static HANDLES_T: RefCell<Vec<(usize, HandleT)>> = RefCell::new(vec![]);
 }
 
+thread_local! {
+  pub static SUBJECTS: RefCell<Vec<(usize, Subject<'static, Val, Val>)>> = RefCell::new(vec![]);
+  pub static SUBJECTS_T: RefCell<Vec<(usize, SubjectThreads<Val, Val>)>> = RefCell::new(vec![]);
+}
+
 pub fn reset_handles() {
   let a = HANDLES.with(|h| std::mem::take(&mut *h.borrow_mut()));
   let b = HANDLES_T.with(|h| std::mem::take(&mut *h.borrow_mut()));
+  let c = SUBJECTS.with(|h| std::mem::take(&mut *h.borrow_mut()));
+  let d = SUBJECTS_T.with(|h| std::mem::take(&mut *h.borrow_mut()));
   let _ = std::panic::catch_unwind(std::panic::AssertUnwindSafe(move || {
     drop(a);
     drop(b);
+    drop(c);
+    drop(d);
   }));
+}
+
+/// Hot input of either kind: a parked `create` subscriber handle (kind 0) or a Subject (kind 1).
+pub fn hot_kind(tag: usize, kind: u32) -> Obs {
+  if kind == 0 {
+    hot_tagged(tag)
+  } else {
+    let s: Subject<'static, Val, Val> = Subject::default();
+    SUBJECTS.with(|h| h.borrow_mut().push((tag, s.clone())));
+    s.box_it()
+  }
+}
+pub fn hot_kind_t(tag: usize, kind: u32) -> ObsT {
+  if kind == 0 {
+    hot_tagged_t(tag)
+  } else {
+    let s: SubjectThreads<Val, Val> = SubjectThreads::default();
+    SUBJECTS_T.with(|h| h.borrow_mut().push((tag, s.clone())));
+    s.box_it()
+  }
+}
+
+/// Deliver an event to the hot input `tag` (whichever kind it is); false if nobody is subscribed to a handle-kind input yet.
+pub fn feed_hot(tag: usize, ev: &crate::world::Ev) -> bool {
+  use crate::world::Ev;
+  if let Some(mut h) = handle_nth(tag, 0) {
+    match ev {
+      Ev::Next(v) => h.next(v.clone()),
+      Ev::Err(x) => h.clone().error(x.clone()),
+      Ev::Complete => h.clone().complete(),
+    }
+    return true;
+  }
+  let s = SUBJECTS.with(|h| h.borrow().iter().find(|(t, _)| *t == tag).map(|(_, s)| s.clone()));
+  if let Some(mut s) = s {
+    if s.is_empty() {
+      return false; // nobody is subscribed (yet): a hot source's event is lost
+    }
+    match ev {
+      Ev::Next(v) => s.next(v.clone()),
+      Ev::Err(x) => s.error(x.clone()),
+      Ev::Complete => s.complete(),
+    }
+    return true;
+  }
+  false
+}
+pub fn feed_hot_t(tag: usize, ev: &crate::world::Ev) -> bool {
+  use crate::world::Ev;
+  if let Some(mut h) = handle_t_nth(tag, 0) {
+    match ev {
+      Ev::Next(v) => h.next(v.clone()),
+      Ev::Err(x) => h.clone().error(x.clone()),
+      Ev::Complete => h.clone().complete(),
+    }
+    return true;
+  }
+  let s = SUBJECTS_T.with(|h| h.borrow().iter().find(|(t, _)| *t == tag).map(|(_, s)| s.clone()));
+  if let Some(mut s) = s {
+    if s.is_empty() {
+      return false;
+    }
+    match ev {
+      Ev::Next(v) => s.next(v.clone()),
+      Ev::Err(x) => s.error(x.clone()),
+      Ev::Complete => s.complete(),
+    }
+    return true;
+  }
+  false
+}
+/// is the source-side view of hot input `tag` closed / finished?
+pub fn hot_is_closed(tag: usize) -> Option<bool> {
+  if let Some(h) = handle_nth(tag, 0) {
+    return Some(h.is_closed());
+  }
+  None
+}
+pub fn hot_is_finished(tag: usize) -> Option<bool> {
+  if let Some(h) = handle_nth(tag, 0) {
+    return Some(Observer::<Val, Val>::is_finished(&h));
+  }
+  None
 }
 
 /// Hot input: `observable::create` whose subscriber handle is parked (under `tag`) for the script.
